@@ -66,7 +66,12 @@ func c14Scenario(name string, clients []gridClient, withECH bool) *explore.Scena
 			}
 			vers := versions[x.Choose("version", len(versions))]
 			ck := certs[x.Choose("cert", len(certs))]
-			serverName := []string{"example.com", "nomatch.example"}[x.Choose("servername", 2)]
+			// (an IP literal is verified like a name but never sent as SNI: the hello's server name is empty)
+			serverNames := []string{"example.com", "nomatch.example", "9.9.9.9"}
+			if withECH {
+				serverNames = serverNames[:2]
+			}
+			serverName := serverNames[x.Choose("servername", len(serverNames))]
 			nameToVerify := []string{"", "*", "a.example", "nomatch.example"}[x.Choose("nametoverify", 4)]
 			skipTime := x.Choose("skiptime", 2) == 1
 			skipVerify := x.Choose("skipverify", 2) == 1
@@ -306,7 +311,7 @@ func c14Scenarios(thorough bool) []*explore.Scenario {
 func init() {
 	register(&Prop{ID: "C14", Level: "exploration", Variant: "A", Scenarios: c14Scenarios,
 		Run: func(c *explore.Check, thorough bool) {
-			c.Rule = "full product of {4 (6) clients} x version {1.3,1.2} x certificate {valid, wrong name, untrusted root, expired, not yet valid} x ServerName {matching, other} x InsecureServerNameToVerify {'', '*', matching, other} x InsecureSkipTimeVerify x InsecureSkipVerify x {fresh, resumed from a session cached by an unverified / a leniently verified first connection}, and the same product at TLS 1.3 with ECH offered and accepted (4 ECH-capable clients): success must equal a reference predicate and failures must be CertificateVerificationError; ECH: 4 clients x {accepted, rejected with / without retry configs} x public-name certificate {good, untrusted, secret-name only} x name check on/off. distinct = configuration"
+			c.Rule = "full product of {4 (6) clients} x version {1.3,1.2} x certificate {valid, wrong name, untrusted root, expired, not yet valid} x ServerName {matching, other, IP literal no leaf covers} x InsecureServerNameToVerify {'', '*', matching, other} x InsecureSkipTimeVerify x InsecureSkipVerify x {fresh, resumed from a session cached by an unverified / a leniently verified first connection}, and the same product at TLS 1.3 with ECH offered and accepted (4 ECH-capable clients): success must equal a reference predicate and failures must be CertificateVerificationError; ECH: 4 clients x {accepted, rejected with / without retry configs} x public-name certificate {good, untrusted, secret-name only} x name check on/off. distinct = configuration"
 			c.Assumptions = []string{"reference predicate written from the Config field documentation", "fixture PKI with a fixed clock"}
 			runAll(c, c14Scenarios(thorough), 0)
 			c.Gate(c.Total.Counters["resumed_connections"] > 20, "non-vacuity: %d resumed connections", c.Total.Counters["resumed_connections"])
